@@ -200,6 +200,9 @@ impl OpCache {
 }
 
 pub fn load_op(c: &Case) -> Result<Op, String> {
+    if c.name.starts_with("Fused") {
+        return load_fused(c);
+    }
     let in_names: Vec<String> =
         c.inputs.iter().enumerate().map(|(i, v)| if v.is_some() { format!("i{i}") } else { String::new() }).collect();
     let out_names: Vec<String> = (0..c.n_out).map(|i| format!("o{i}")).collect();
@@ -501,7 +504,7 @@ pub const OTHER: &[&str] = &[
     "ReduceLogSumExp", "ReduceSumSquare", "ArgMax", "ArgMin", "CumSum", "TopK", "Trilu", "DepthToSpace", "OneHot",
     "NonZero", "Einsum", "Shape", "Size", "Range", "EyeLike", "ReverseSequence", "MatMulInteger",
     "DequantizeLinear", "QuantizeLinear", "DynamicQuantizeLinear", "GeluMs", "QuickGelu", "BiasGelu", "FastGelu",
-    "SequenceInsert", "SequenceErase", "GridSample", "Dropout", "ConstantOfShape",
+    "SequenceInsert", "SequenceErase", "GridSample", "Dropout", "ConstantOfShape", "FusedSilu", "FusedAddSoftmax",
 ];
 
 pub fn all_names() -> Vec<&'static str> {
@@ -1183,9 +1186,53 @@ pub fn gen(name: &'static str, rng: &mut Rng) -> Option<Case> {
             let sh = rshape(rng, 3, 0);
             Case::new(name, vec![Some(ivec(&sh.iter().map(|&x| x as i64).collect::<Vec<_>>()))]).data(&[])
         }
+        "FusedSilu" => {
+            let sh = rshape(rng, 4, 0);
+            Case::new(name, vec![Some(tf(rng, &sh))])
+        }
+        "FusedAddSoftmax" => {
+            let (a, b) = bpair(rng);
+            Case::new(name, vec![Some(tfm(rng, &a)), Some(tfm(rng, &b))])
+        }
         _ => return None,
     };
     Some(c)
+}
+
+/// Operators that only exist as optimizer fusions: load a two-node model with graph optimisation
+/// enabled and pick the fused operator out of the optimised graph.
+fn load_fused(c: &Case) -> Result<Op, String> {
+    let (nodes, ins, want): (Vec<Node>, Vec<&str>, &str) = match c.name {
+        "FusedSilu" => (
+            vec![Node::new("Sigmoid", "sig", &["x"], &["s"]), Node::new("Mul", "mul", &["x", "s"], &["y"])],
+            vec!["x"],
+            "Silu",
+        ),
+        "FusedAddSoftmax" => (
+            vec![
+                Node::new("Add", "add", &["a", "b"], &["s"]),
+                Node::new("Softmax", "sm", &["s"], &["y"]).attr("axis", Attr::Int(-1)),
+            ],
+            vec!["a", "b"],
+            "AddSoftmax",
+        ),
+        _ => return Err("not a fused entry".into()),
+    };
+    let g = Graph {
+        nodes,
+        inputs: ins.iter().map(|n| ValueInfo::new(n, dt::FLOAT, None)).collect(),
+        outputs: vec![ValueInfo::new("y", dt::FLOAT, None)],
+        ..Default::default()
+    };
+    let model = ModelOptions::with_all_ops().load(g.into_model_bytes(21)).map_err(|e| format!("load: {e}"))?;
+    for (_, node) in model.verif_graph().iter() {
+        if let Some(opn) = node.as_operator() {
+            if opn.operator().name() == want {
+                return Ok(opn.clone_operator());
+            }
+        }
+    }
+    Err(format!("optimizer did not produce {want}"))
 }
 
 // ---------------------------------------------------------------------------------------------
